@@ -12,7 +12,7 @@ use crate::zgen::*;
 pub const INFO: CheckInfo = CheckInfo {
     prop: "C08",
     level: "model_checking",
-    rule: "valid zlib / gzip(+FHCRC) streams (R4 corpus in R3 wrappers; encoder-produced streams with 0 B .. 100 KB of output so that per-call output exceeds the 32 KiB window, wraps and splits) x {intact, ALL 255 alternative values of each of the last 12 bytes and of each header byte, every single-bit flip elsewhere (lattice on long streams)} x schedules {one call, 1-byte input, 1-byte output, output room 32767/32768/32769, trailer delivered in a separate call} x windowBits {zlib/gzip/auto}. Oracle (independent of the decoder model): whenever inflate returns Z_STREAM_END, the trailer just consumed equals the Adler-32 / CRC-32 + length (R1) of the bytes actually output in this execution, and a gzip header with FHCRC has a correct CRC-16. distinct_nontrivial = distinct (verdict, output hash, consumed) outcomes; the number of accepted corrupted streams is reported (must be 0 unless the corruption is checksum-neutral).",
+    rule: "valid zlib / gzip(+FHCRC) streams (R4 corpus in R3 wrappers; encoder-produced streams with 0 B .. 100 KB of output so that per-call output exceeds the 32 KiB window, wraps and splits) x {intact, ALL 255 alternative values of each of the last 12 bytes and of each header byte, every single-bit flip elsewhere (lattice on long streams)} x schedules {one call, 1-byte input, 1-byte output, output room 32767/32768/32769, trailer delivered in a separate call} x windowBits {zlib/gzip/auto}. Oracle (independent of the decoder model): whenever inflate returns Z_STREAM_END, the trailer just consumed equals the Adler-32 / CRC-32 + length (R1) of the bytes actually output in this execution, and a gzip header with FHCRC has a correct CRC-16. Histories: every sequence of <= 3 (4) operations over {three inflate call shapes, inflateSync, inflateValidate(0/1), inflateReset, inflateReset2} on 5 data sets, then inflateReset / inflateReset2 and the stream again with each trailer byte damaged: with checking enabled according to a one-flag model (cleared only by inflateValidate(0) or a successful inflateSync, restored by inflateReset2) a wrong trailer must be rejected. distinct_nontrivial = distinct (verdict, output hash, consumed) outcomes; the number of accepted corrupted streams is reported (must be 0 unless the corruption is checksum-neutral).",
     assumptions: &["R1 is the checksum definition", "checksum collisions are not excluded by the property; none can occur for single-byte faults of a CRC-32/Adler-32 protected stream of these sizes except in fields the format ignores (MTIME, XFL, OS, name bytes without FHCRC)"],
     bound_quick: "corpus streams <= 300 bytes: all faults; 4 long streams: header/trailer all values + flips on a sparse lattice",
     bound_thorough: "denser lattice on long streams (stride 331 bits), 8 long streams",
@@ -69,6 +69,10 @@ fn targets(quick: bool) -> Vec<Target> {
         if g.raw.len() > 300 {
             continue;
         }
+        // of the position sweeps only every 16th member (the trailer logic does not depend on the position)
+        if g.light && hash_bytes(g.name.as_bytes()) % 16 != 0 {
+            continue;
+        }
         // keep the corpus part moderate: every 7th program plus all non-program streams
         if g.name.contains("prog#") && !g.name.contains("prog#1 ") && hash_bytes(g.name.as_bytes()) % 7 != 0 {
             continue;
@@ -99,7 +103,119 @@ fn targets(quick: bool) -> Vec<Target> {
     v
 }
 
+/// Histories that may or may not switch checksum verification off, then a recycled decoder is given a stream with
+/// a wrong trailer. A model of the one flag involved - on initially and after inflateReset2, set by inflateValidate,
+/// cleared by a SUCCESSFUL inflateSync, kept by inflateReset (finding F6) - says whether checking is enabled; with
+/// checking enabled a wrong trailer must never be accepted.
+fn histories(ctx: &mut Ctx) {
+    use crate::machine::*;
+    #[derive(Clone, Copy, Debug)]
+    enum H {
+        Op(MOp),
+        Reset,
+        Reset2,
+    }
+    let quick = ctx.quick();
+    let menv = MEnv::new();
+    let sets = crate::checks::c14::idata();
+    let alpha = [
+        H::Op(MOp::Call { flush: Z_NO_FLUSH, inn: 10, room: 1 }),
+        H::Op(MOp::Call { flush: Z_BLOCK, inn: usize::MAX, room: AMPLE }),
+        H::Op(MOp::Call { flush: Z_NO_FLUSH, inn: usize::MAX, room: AMPLE }),
+        H::Op(MOp::Sync),
+        H::Op(MOp::Validate(0)),
+        H::Op(MOp::Validate(1)),
+        H::Reset,
+        H::Reset2,
+    ];
+    for ds in sets.iter().filter(|d| d.wb > 0 && d.name != "zlib-long-far-matches") {
+        let gzip = ds.wb & 16 != 0 && ds.wb < 32;
+        // the stream the recycled decoder is given: the data set's own (valid) stream, with each trailer byte damaged
+        let tl = if gzip { 8 } else { 4 };
+        let n = ds.bytes.len();
+        if ds.name.starts_with("corrupt") {
+            continue;
+        }
+        let mut probes: Vec<(String, Vec<u8>)> = vec![("intact".into(), ds.bytes.clone())];
+        for k in 1..=tl {
+            let mut b = ds.bytes.clone();
+            b[n - k] ^= 0x5a;
+            probes.push((format!("trailer byte -{k} damaged"), b));
+        }
+        crate::optree::sequences(&alpha, if quick { 3 } else { 4 }, |hist| {
+            for final_reset2 in [false, true] {
+                ctx.case(
+                    "history-then-wrong-trailer",
+                    || format!("data={} inflateInit2({}) ; history {hist:?} ; {} ; then the stream again, intact and with each of its {tl} trailer bytes damaged", ds.name, ds.wb, if final_reset2 { "inflateReset2" } else { "inflateReset" }),
+                    |c| unsafe {
+                        let mut h = 0u64;
+                        for (pn, probe) in &probes {
+                            c.exec();
+                            let mut a = IMachine::init::<Rs>(ds.wb, &ds.bytes, Strm::filled(0x3c)).map_err(|r| format!("init {r}"))?;
+                            let mut check_on = true;
+                            let mut synced = false;
+                            for op in hist {
+                                match op {
+                                    H::Op(m) => {
+                                        let o = a.step::<Rs>(*m, &menv);
+                                        match m {
+                                            MOp::Validate(v) if o.ret == Z_OK => check_on = *v != 0,
+                                            MOp::Sync if o.ret == Z_OK => {
+                                                check_on = false;
+                                                synced = true;
+                                            }
+                                            _ => {}
+                                        }
+                                    }
+                                    H::Reset => {
+                                        a.reset::<Rs>(None);
+                                    }
+                                    H::Reset2 => {
+                                        if a.reset::<Rs>(Some(ds.wb)) == Z_OK {
+                                            check_on = true;
+                                            synced = false;
+                                        }
+                                    }
+                                }
+                            }
+                            let r = if final_reset2 { a.reset::<Rs>(Some(ds.wb)) } else { a.reset::<Rs>(None) };
+                            if r != Z_OK {
+                                a.end::<Rs>();
+                                return Err(format!("reset returned {}", rc_name(r)));
+                            }
+                            if final_reset2 {
+                                check_on = true;
+                                synced = false;
+                            }
+                            a.data = &*(probe.as_slice() as *const [u8]);
+                            let o = a.step::<Rs>(MOp::Call { flush: Z_NO_FLUSH, inn: usize::MAX, room: AMPLE }, &menv);
+                            a.data = &ds.bytes;
+                            a.end::<Rs>();
+                            h = mix(h, mix(o.ret as u64, o.out_hash));
+                            let damaged = pn != "intact";
+                            if damaged && o.ret == Z_STREAM_END {
+                                if check_on {
+                                    return Err(format!("{pn}: accepted with Z_STREAM_END although checksum verification is enabled (never switched off by inflateValidate(0) or a successful inflateSync since the last inflateReset2/init)"));
+                                }
+                                c.count(if synced { "wrong_trailer_accepted_checks_off_after_successful_sync_F6" } else { "wrong_trailer_accepted_checks_off_by_inflateValidate" }, 1);
+                            }
+                            if !damaged && o.ret != Z_STREAM_END && !synced {
+                                return Err(format!("the intact stream is not accepted by the recycled decoder: {}", rc_name(o.ret)));
+                            }
+                        }
+                        c.outcome(h);
+                        c.nontrivial();
+                        c.validated();
+                        Ok(())
+                    },
+                );
+            }
+        });
+    }
+}
+
 pub fn run(ctx: &mut Ctx) {
+    histories(ctx);
     let quick = ctx.quick();
     let env = Env::new();
     let tg = targets(quick);
